@@ -6,11 +6,11 @@ TRANSLATORS = []
 LEVEL = "proof"
 ASSUMPTIONS = [
     "the adapter is faithful: ordered rule sets per policy type that apply exactly the call they are given and never answer False (it implements Adapter, BatchAdapter and UpdateAdapter)",
-    "clear_policy (not a management call; it never talks to the adapter), update_filtered_policies (open finding F16) and update_policies (mirror theorem not yet proved, covered by the correspondence only) are outside the mirror theorem",
+    "clear_policy (not a management call; it never talks to the adapter), update_policies (mirror theorem not yet proved, covered by the correspondence only) is outside the mirror theorem; update_filtered_policies has its own (Props/UpdFiltered mirror)",
 ]
 TRUSTED_EXTRA = []
 
-CHANGE = ("add", "addmany", "remove", "removemany", "removefiltered", "update", "updatemany", "removeread", "updateread")
+CHANGE = ("add", "addmany", "remove", "removemany", "removefiltered", "update", "updatemany", "removeread", "updateread", "updatefiltered")
 
 
 def judge_factory():
@@ -31,6 +31,8 @@ def judge_factory():
         failed = rec["ret"] in ("F", "L~")
         raised = rec["ret"].startswith("!")
         sig = f"C09:{cfg.shape}:{op[0]}:{op[1] if len(op) > 1 and op[1] in ('p', 'g', 'g2') else ''}"
+        if op[0] == "updatefiltered":
+            sig += ":" + ec.updatefiltered_kind(rec["pre"]["p"], op)
         what = None
         if op[0] in CHANGE:
             if failed and rec["acalls"]:
@@ -127,5 +129,6 @@ def replay(obj):
     j = judge_factory()
     out = ec.run_history(cfg, hist, ec.query_set(cfg), fresh_oracle=False)
     for i, (op, rec) in enumerate(zip(hist, out)):
+        rec["pre"] = out[i - 1]["pol"] if i else {k: [list(x) for x in cfg.initial.get(k, [])] for k in ("p", "g", "g2")}
         j(r, cfg, hist, i, op, rec, None, case, None)
     return bool(r.spec_violations)
